@@ -9,6 +9,8 @@ C03 (add => contains), C10 (len == |dom|).
 import re
 from unitlib import AnchorLost, code_mask, match_delim
 import prelude as P
+import re
+from unitlib import extract as unitlib_extract
 import dialing_parts
 import network_api_parts
 
@@ -484,17 +486,25 @@ impl DisconnectReason {
 """)
     t += '}\n'
     t += dialing_parts.build(C)
+    # the names of the two locals the lifted tail shares with the loop before it are read from the text (renaming them changes nothing)
+    try:
+        _src = unitlib_extract(C.repo, 'crates/anemo/src/network/request_handler.rs', 'impl InboundRequestHandler :: fn start').text
+    except Exception:
+        _src = ''
+    _mj = re.search(r'let\s+mut\s+(\w+)\s*=\s*(?:tokio::task::)?JoinSet::new\(\)', _src)
+    _ml = re.search(r'let\s+(\w+)\s*=\s*loop\b', _src)
+    JS, CRN = (_mj.group(1) if _mj else 'inflight_requests'), (_ml.group(1) if _ml else 'close_reason')
     t += C.lifted('crates/anemo/src/network/request_handler.rs', 'impl InboundRequestHandler :: fn start', 'InboundRequestHandler::start::tail',
-                  ['C04', 'C05', 'C09'], anchor='let close_reason = loop', kind='tail', name='inbound_request_handler_start_tail', is_async=True,
-                  params='active_peers: &mut ActivePeers, connection: &Connection, close_reason: ConnectionError, inflight_requests: &mut JoinSet<()>',
-                  inserts=[('X6', 'inflight_requests.shutdown().await;', '''assert(active_peers.0.view() =~~= rm_sid_spec(old(active_peers).0.view(), connection.peer, connection.sid, reason_of(close_reason))); // @OBL InboundRequestHandler::start::tail::reports_loss_before_teardown [C09,C04,C05] the lost connection is removed and announced BEFORE the handler waits for its in-flight request tasks to be torn down (which can take arbitrarily long): the loss is reported without delay
-        ''', 'before', True)],
+                  ['C04', 'C05', 'C09'], anchor='let %s = loop' % CRN, kind='tail', name='inbound_request_handler_start_tail', is_async=True,
+                  params='active_peers: &mut ActivePeers, connection: &Connection, %s: ConnectionError, %s: &mut JoinSet<()>' % (CRN, JS),
+                  inserts=[('X6', '%s.shutdown().await;' % JS, '''assert(active_peers.0.view() =~~= rm_sid_spec(old(active_peers).0.view(), connection.peer, connection.sid, reason_of(CLOSE_REASON))); // @OBL InboundRequestHandler::start::tail::reports_loss_before_teardown [C09,C04,C05] the lost connection is removed and announced BEFORE the handler waits for its in-flight request tasks to be torn down (which can take arbitrarily long): the loss is reported without delay
+        '''.replace('CLOSE_REASON', CRN), 'before', True)],
                   rewrites=[('X10', 'self.active_peers', 'active_peers', None), dict(rule='X10', pattern='self.connection', repl='connection', optional=True),
                             dict(rule='X5', pattern='crate::types::DisconnectReason', repl='DisconnectReason', optional=True)],
                   spec="""
     ensures
-        final(active_peers).0.view() =~~= rm_sid_spec(old(active_peers).0.view(), connection.peer, connection.sid, reason_of(close_reason)), // @OBL InboundRequestHandler::start::tail::removes_own_entry_only [C04,C05,C09] when a connection's handler exits it removes exactly its own entry (matched by stable id) with the mapped reason; a replaced connection's exit changes nothing
-""")
+        final(active_peers).0.view() =~~= rm_sid_spec(old(active_peers).0.view(), connection.peer, connection.sid, reason_of(CLOSE_REASON)), // @OBL InboundRequestHandler::start::tail::removes_own_entry_only [C04,C05,C09] when a connection's handler exits it removes exactly its own entry (matched by stable id) with the mapped reason; a replaced connection's exit changes nothing
+""".replace('CLOSE_REASON', CRN))
     t += network_api_parts.build(C)
     t += C.helpers_here()
     t += P.FOOTER
